@@ -50,6 +50,26 @@ func (o *recObj) status() reconciler.Status {
 	return o.Status
 }
 
+// names is a digest of the statuses the OTHER reconcilers of a StatusSet object have written ("" without a set)
+func (o *recObj) names() string {
+	if !o.UseSet {
+		return ""
+	}
+	all := o.Set.All()
+	ks := []string{}
+	for n := range all {
+		if n != "verif" {
+			ks = append(ks, n)
+		}
+	}
+	sort.Strings(ks)
+	var b strings.Builder
+	for _, n := range ks {
+		b.WriteString(n + ":" + kindOf(all[n]) + " ")
+	}
+	return b.String()
+}
+
 func (o *recObj) TableHeader() []string { return []string{"ID", "Ver", "Status"} }
 func (o *recObj) TableRow() []string {
 	return []string{fmt.Sprint(o.ID), fmt.Sprint(o.Ver), o.Status.String()}
@@ -84,6 +104,8 @@ type recOp struct {
 	Q       bool   `json:"q"`
 	Idle    bool   `json:"idle"`
 	UseSet  bool   `json:"statusset"`
+	// SetNames: number of other reconcilers that have already written their status into a new StatusSet object
+	SetNames int `json:"setnames"`
 }
 
 type recInject struct {
@@ -109,6 +131,7 @@ type recState struct {
 	initFn  func(statedb.WriteTxn)
 	waits   sync.WaitGroup
 	useSet  bool
+	setNames int
 	// cmu guards failQ, inject, ncalls and target: the script goroutine and the reconciler's operations
 	// run concurrently inside the bubble
 	cmu sync.Mutex
@@ -142,6 +165,12 @@ func (st *recState) pendingObj(id uint64, ver int, old *recObj) *recObj {
 	set := reconciler.NewStatusSet()
 	if old != nil {
 		set = old.Set.Pending()
+	} else {
+		// the reconcilers that got to the object before ours (the slice behind the set grows 1, 2, 4: three
+		// names leave a spare slot)
+		for i := 0; i < st.setNames; i++ {
+			set = set.Set(string(rune('x'+i)), reconciler.StatusDone())
+		}
 	}
 	return &recObj{ID: id, Ver: ver, Set: set, UseSet: true}
 }
@@ -208,7 +237,7 @@ func (st *recState) onCommit(point string) {
 	for o, orev := range st.table.LowerBound(rt, statedb.ByRevision[*recObj](st.lastRev+1)) {
 		seen[o.ID] = true
 		changes = append(changes, map[string]any{"k": int(o.ID), "ver": o.Ver, "other": o.Other, "kind": kindOf(o.status()),
-			"sid": int(o.status().ID), "rev": int(orev), "del": false})
+			"sid": int(o.status().ID), "rev": int(orev), "del": false, "names": o.names()})
 	}
 	ids := []int{}
 	for id := range st.known {
@@ -220,7 +249,7 @@ func (st *recState) onCommit(point string) {
 	for _, id := range ids {
 		o := st.known[uint64(id)]
 		changes = append(changes, map[string]any{"k": id, "ver": o.Ver, "other": o.Other, "kind": kindOf(o.status()),
-			"sid": int(o.status().ID), "rev": 0, "del": true})
+			"sid": int(o.status().ID), "rev": 0, "del": true, "names": ""})
 	}
 	st.known = cur
 	st.lastRev = rev
@@ -228,10 +257,15 @@ func (st *recState) onCommit(point string) {
 	if st.byUser {
 		by = "user"
 	}
+	// the complete table as it reads now: committed objects are immutable, so it is what the commits so far put there
+	all := [][]any{}
+	for o, orev := range st.table.All(rt) {
+		all = append(all, []any{int(o.ID), o.Ver, kindOf(o.status()), int(orev), o.names()})
+	}
 	init, _ := st.table.Initialized(rt)
 	// (commitMu is held by this goroutine: log directly)
 	st.mu.Lock()
-	st.log.Emit(Ev{"op": "commit", "by": by, "t": st.now(), "rev": int(rev), "changes": changes, "init": init})
+	st.log.Emit(Ev{"op": "commit", "by": by, "t": st.now(), "rev": int(rev), "changes": changes, "init": init, "all": all})
 	st.mu.Unlock()
 }
 
@@ -267,6 +301,14 @@ func (st *recState) userWrite(kind string, k int) {
 		if found {
 			o := old.Clone()
 			o.Other++
+			if o.UseSet {
+				// ... through the shared StatusSet, as a second reconciler's SetObjectStatus does
+				s2 := reconciler.StatusDone()
+				if o.Other%3 == 0 {
+					s2 = reconciler.StatusError(errors.New("other"))
+				}
+				o.Set = o.Set.Set(fmt.Sprintf("o%d", o.Other%2), s2)
+			}
 			ver = o.Ver
 			st.table.Insert(wtxn, o)
 		}
@@ -383,7 +425,7 @@ func runRecScript(t *testing.T, sc Script, log *Log) {
 			panic(err)
 		}
 		st := &recState{log: log, start: time.Now(), target: map[uint64]int{}, failQ: map[string]int{},
-			inject: map[string][]recInject{}, ncalls: map[string]int{}, known: map[uint64]*recObj{}, useSet: cfg.UseSet}
+			inject: map[string][]recInject{}, ncalls: map[string]int{}, known: map[uint64]*recObj{}, useSet: cfg.UseSet, setNames: cfg.SetNames}
 		ops := &recOps{st}
 		var batchOps reconciler.BatchOperations[*recObj]
 		if cfg.Batch {
@@ -525,7 +567,7 @@ func runRecScript(t *testing.T, sc Script, log *Log) {
 				rt := st.db.ReadTxn()
 				rows := [][]any{}
 				for o, rev := range st.table.All(rt) {
-					rows = append(rows, []any{int(o.ID), o.Ver, kindOf(o.status()), int(rev)})
+					rows = append(rows, []any{int(o.ID), o.Ver, kindOf(o.status()), int(rev), o.names()})
 				}
 				tg := [][]int{}
 				keys := []int{}
